@@ -68,6 +68,11 @@ class ResourceMemories(admission.MemoGetter, daemons.DaemonsMemoriesIterator):
     def __init__(self) -> None:
         super().__init__()
         self._items = {}
+        self._operator_exiting = False
+
+    def mark_operator_exiting(self) -> None:
+        self._operator_exiting = True  # also for the memories of the objects seen later.
+        super().mark_operator_exiting()
 
     def iter_all_memories(self) -> Iterator[ResourceMemory]:
         yield from self._items.values()
@@ -114,6 +119,7 @@ class ResourceMemories(admission.MemoGetter, daemons.DaemonsMemoriesIterator):
             else:
                 memo = copy.copy(memobase)
                 memory = ResourceMemory(noticed_by_listing=noticed_by_listing, memo=memo)
+            memory.daemons_memory.operator_exiting = self._operator_exiting
             if not ephemeral:
                 self._items[key] = memory
         return memory
